@@ -133,6 +133,15 @@ def main():
         ok = any(f[2] == 'nondeterministic' for f in r.fails)
         results.append(('det: one digest changed', 'nondeterministic', ok, []))
         print(('ok   ' if ok else 'MISS ') + 'det: one recorded digest changed')
+    cs = load('c08-pexp-judge')
+    if cs:
+        j = first(cs, lambda x: x['hascalls'] and len(x['calls']) >= 3 and x['calls'][-1] != x['calls'][-2])
+        c = copy.deepcopy(cs[j:j + 1]); c[0]['calls'][-1], c[0]['calls'][-2] = c[0]['calls'][-2], c[0]['calls'][-1]
+        expect(run('Trace_ProofExp', 'c08-pexp-judge', c), 'calls', 'pexp: two recorded interpreter calls swapped', results)
+        c = copy.deepcopy(cs[j:j + 1]); c[0]['advertised'] = pi2v.IMP(pi2v.SV(0), pi2v.EV(0))
+        expect(run('Trace_ProofExp', 'c08-pexp-judge', c), 'advertised', 'pexp: advertised conclusion replaced', results)
+        c = copy.deepcopy(cs[j:j + 1]); c[0]['interps'][3]['out'] = 'raise:AssertionError'
+        expect(run('Trace_ProofExp', 'c08-pexp-judge', c), 'fails-applicable', 'pexp: one interpreter outcome flipped', results)
     cs = load('c20-trace')
     if cs:
         j = first(cs, lambda x: x['out'] == 'ok' and x['steps'] and x['steps'][0]['out'] == 'ok' and len(x['steps'][0]['claims_after']) == 1)
